@@ -691,6 +691,10 @@ func traverseAST(node *sitter.Node, sourceCode []byte, graph *CodeGraph, current
 		methodName, methodID := extractMethodName(node, sourceCode, file)
 		modifiers := ""
 		returnType := ""
+		// the return type is whatever the grammar puts in the "type" field: void, primitive, array, generic, qualified …
+		if typeNode := node.ChildByFieldName("type"); typeNode != nil {
+			returnType = typeNode.Content(sourceCode)
+		}
 		throws := []string{}
 		methodArgumentType := []string{}
 		methodArgumentValue := []string{}
@@ -716,9 +720,6 @@ func traverseAST(node *sitter.Node, sourceCode []byte, graph *CodeGraph, current
 						annotationMarkers = append(annotationMarkers, childNode.Child(j).Content(sourceCode))
 					}
 				}
-			case "void_type", "type_identifier":
-				// get return type of method
-				returnType = childNode.Content(sourceCode)
 			case "formal_parameters":
 				// get method arguments
 				for j := 0; j < int(childNode.NamedChildCount()); j++ {
